@@ -16,7 +16,8 @@ RULE = ("Hypothesis draws histories (<=24 calls) of store_object / tag_object / 
         "list, every pre-existing object and every retrieve_object result are unchanged; after "
         "delete_object(pid) returned, the same call must succeed. Non-trivial = history with >=1 "
         "rejected re-binding; distinct key = per rejected call (kind, same/different cid, new cid has "
-        "a list or not, pid shares its object or not) plus whether a re-bind after delete succeeded.")
+        "a list or not, pid shares its object or not) plus whether a re-bind after delete succeeded."
+        ' One case in four replaces a pid by the PATH OF AN EXISTING FILE that is edited / removed / re-created between the calls.')
 ASSUMPTIONS = ["single thread, no injected faults (C13 covers faulted re-tagging)"]
 PIDS = ["p1", "p2", "p3"]
 ALREADY = {"HashStoreRefsAlreadyExists", "PidRefsAlreadyExistsError"}
